@@ -641,3 +641,30 @@ def bind_call(call, fn, skip_self=False, partial=False):
             continue
         out[k.arg] = k.value
     return out
+
+
+CAST_METHODS = {"astype", "copy", "view"}
+CAST_FUNCS = {"asarray", "array", "ascontiguousarray", "asanyarray", "atleast_1d", "float64"}
+
+
+def strip_casts(node):
+    """Remove value-preserving array casts/copies and collapse IfExp whose
+    branches became identical: x.astype(f8) if c else x  ->  x."""
+
+    class T(ast.NodeTransformer):
+        def visit_Call(self, n):
+            self.generic_visit(n)
+            if isinstance(n.func, ast.Attribute) and n.func.attr in CAST_METHODS and not (dotted(n.func.value) or "").split(".")[0] in ("np", "numpy", "copy"):
+                return n.func.value
+            d = dotted(n.func) or ""
+            if d.split(".")[-1] in CAST_FUNCS and d.split(".")[0] in ("np", "numpy") and n.args:
+                return n.args[0]
+            return n
+
+        def visit_IfExp(self, n):
+            self.generic_visit(n)
+            if ast.dump(n.body) == ast.dump(n.orelse):
+                return n.body
+            return n
+
+    return T().visit(clone(node))
